@@ -915,7 +915,7 @@ pub fn parent<F: Family>(opts: &Opts) -> i32 {
                     match c.try_wait() {
                         Ok(Some(_)) => break,
                         Ok(None) => {
-                            if start.elapsed() > Duration::from_secs(120) {
+                            if start.elapsed() > Duration::from_secs(if tier == Tier::Quick { 45 } else { 120 }) {
                                 let _ = c.kill();
                                 let _ = c.wait();
                                 break;
